@@ -1832,8 +1832,12 @@ func buildConstructorCode(src, tgt *expr.AttributeExpr, sourceVar, targetVar str
 	for _, nat := range *tobj {
 		if _, ok := nat.Attribute.Type.(*expr.ResultTypeExpr); ok {
 			targetRTs.Set(nat.Name, nat.Attribute)
-			tobj.Delete(nat.Name)
 		}
+	}
+	// delete once the iteration is over: deleting while ranging over the
+	// object skips the attribute that follows a deleted one
+	for _, nat := range *targetRTs {
+		tobj.Delete(nat.Name)
 	}
 	data["Source"] = sourceVar
 	data["Target"] = targetVar
